@@ -264,12 +264,31 @@ def r5_compression_tables(cx):
     s, arms = _variant_arms(F, hb, r"CompressionType$")
     got = {k: _first_call(hb, tg, [r"cluster::(lz4|lzma|zstd)_source$"], avoid={s}) for k, tg in arms.items() if k != "None"}
     ok = bool(got) and all(v and v.endswith("%s_source" % feats[k]) for k, v in got.items())
+    if not ok:
+        # the per-algorithm helpers may have other names / shapes: with the type's helpers inlined, under each stored tag the
+        # only decompression library reached is the one of that tag
+        libs = {"Lz4": r"^lz4::", "Lzma": r"^xz2::", "Zstd": r"^zstd::"}
+        db = F.deep_body(h, only=r"reader::content_pack::cluster::")
+        en = F.enum("common::compression_type::CompressionType")
+        got = {}
+        for v in en["variants"]:
+            if v["name"] not in libs:
+                continue
+            r, _ = db.explore(assume_discr={r"compression_type::CompressionType$": v["discr"]}, avoid=db.error_blocks())
+            reached = sorted({k for k, pat in libs.items() for i in r if db.term(i)["k"] == "call" and re.search(pat, re.sub(r"^<", "", callee_str(db.term(i))))})
+            missing = any(call_is(db.term(i), r"MissingFeatureError") for i in r if db.term(i)["k"] == "call")
+            got[v["name"]] = reached or (["(feature not compiled)"] if missing else [])
+        ok = bool(got) and all(v == [k] or v == ["(feature not compiled)"] for k, v in got.items())
     cx.ob("R5", "R5/reader-tag->decompressor", ok, h, "Cluster::build_plain_reader dispatches each stored tag to its own decoder: %s" % got)
     # the helpers really use the library of their name (when the feature is compiled in)
     for lib, enc, dec in (("lz4", r"lz4::", r"lz4::"), ("lzma", r"xz2::", r"xz2::"), ("zstd", r"zstd::", r"zstd::")):
         cf = [x for x in F.fns if x["name"].endswith("clusterwriter::%s_compress" % lib)]
         df = [x for x in F.fns if x["name"].endswith("cluster::%s_source" % lib)]
-        if not cf or not df:
+        if not cf:
+            continue
+        if not df:
+            # (decoder helpers renamed or merged: the per-tag clause above has looked at the libraries reached)
+            cx.ob("R5", "R5/%s-library" % lib, bool(F.body(cf[0]).calls(enc)), cf[0], "%s_compress calls into the %s library" % (lib, lib))
             continue
         okc = bool(F.body(cf[0]).calls(enc))
         okd = bool(F.body(df[0]).calls(dec)) or bool(F.body(df[0]).calls(r"MissingFeatureError"))
@@ -732,6 +751,23 @@ def r20_no_partial_write_accepted(cx):
     c09.r7_no_partial_write_accepted(cx, rule="R20")
 
 
+def r21_decoded_length_counts_bytes_read(cx):
+    """on the reading side a compressed cluster is its decompressed stream, byte for byte: the background decoder advances
+    by what each read returned, never by what it asked for (a short read of the decompressor would otherwise leave a hole
+    and shift everything behind it) (= C07-R1/R2 under C01)"""
+    import c07
+    orig = cx.ob
+
+    def ob(rule, key, *a, **kw):
+        return orig("R21", "R21/" + key.split("/", 1)[1], *a, **kw)
+    cx.ob = ob
+    try:
+        c07.r1_publish(cx)
+        c07.r2_no_realloc(cx)
+    finally:
+        cx.ob = orig
+
+
 def r10_witness(cx):
     """type-level: ContentPackCreator::finalize consumes the creator (no insertion after finalisation)"""
     import witness
@@ -767,4 +803,5 @@ RULES = [
     ("R18", r18_tables_are_single_blocks, 5),
     ("R19", r19_positions_taken_on_the_buffered_stream, 1),
     ("R20", r20_no_partial_write_accepted, 1),
+    ("R21", r21_decoded_length_counts_bytes_read, 6),
 ]
